@@ -337,7 +337,8 @@ func runRagModelDirect(c *hx.Ctx, i int) {
 		modelOp(c, "c15.raglist "+encListItems(l.Ordered, l.Items), hx.HexS(lc.Chunks[0].Text))
 		c.Count(fmt.Sprintf("docmodel rag direct list items=%d", len(l.Items)))
 		// statement level ("list items keep their ... nesting depth"): a list whose first item is nested
-		// (a list that continues on a new page) still shows that item at its depth
+		// (a list that continues on a new page) still shows that item at its depth (createListChunk used
+		// to end with strings.TrimSpace: fixed in the worktree, efed37d)
 		if len(l.Items) > 0 && l.Items[0].Level > 0 {
 			want := strings.Repeat("  ", l.Items[0].Level)
 			c.Check("C15/list-depth-ragdoc-first-item-nested", strings.HasPrefix(lc.Chunks[0].Text, want+"-") || strings.HasPrefix(lc.Chunks[0].Text, want+"1."), kase, func() string {
